@@ -337,7 +337,7 @@ func main() {
 				obs = "(OOk " + regsLit(out) + ")"
 			}
 			idx := c.Add("yaml", fmt.Sprintf("CYAML %s %s", regsLit(regs), obs), d, k > 0)
-			if !panicked && err != nil && strings.Contains(err.Error(), "is not convertible to TXTPublicKey") && smallKey(regs) {
+			if !panicked && err != nil && knownSmallKeyRoundTrip(regs) {
 				c.OracleFailKnown(idx, "C16-yaml-small-public-key", "YAML round trip of a TXT.PUBLIC.KEY whose first 24 bytes are zero fails: "+err.Error(), "pkg/registers/registers.go:MarshalYAML / marshal_value.go:valueUnpack", d)
 			} else if panicked || err != nil {
 				c.OracleFail(idx, fmt.Sprintf("YAML round trip fails: %v %s", err, msg), "pkg/registers/registers.go", d)
